@@ -427,7 +427,7 @@ def local_view(name, cur_glob):
     return name
 
 
-def render(p, rng=None, case=None, blanks=None, comment=None, rule_order=None, blocks=1, rename=None, mnem=None):
+def render(p, rng=None, case=None, blanks=None, comment=None, rule_order=None, blocks=1, rename=None, mnem=None, linemap=None, noemit=()):
     """program text. case(s): respelling of mnemonics/literals; blanks(): separator between tokens of an
     instruction line; comment(): optional trailing comment; rule_order: permutation; blocks: number of
     #ruledef blocks; rename: label renaming map"""
@@ -455,8 +455,10 @@ def render(p, rng=None, case=None, blanks=None, comment=None, rule_order=None, b
     if p.banks:
         for nm, a, sz, outp in p.banks:
             out.append("#bankdef %s { #addr 0x%x, #size 0x%x, #outp 0x%x }" % (nm, a, sz, outp))
-    for it in p.items:
+    for ii, it in enumerate(p.items):
         k = it[0]
+        if linemap is not None:
+            linemap.append((len(out) + 1, ii))
         if k == "label":
             nm = it[1]
             if "." in nm:
@@ -464,7 +466,7 @@ def render(p, rng=None, case=None, blanks=None, comment=None, rule_order=None, b
             else:
                 out.append(lm(nm) + ":")
         elif k == "const":
-            out.append("%s = %s" % (lm(it[1]), render_value(it[2], lm)))
+            out.append("%s%s = %s" % ("#const(noemit) " if it[1] in noemit else "", lm(it[1]), render_value(it[2], lm)))
         elif k == "instr":
             r = p.rules[it[1]]
             sep = blanks() if blanks else " "
